@@ -2260,7 +2260,7 @@ mod c07 {
         ghost_filter(|id, _, fab| !(fab == fabric_idx.get() && Some(id) != keep));
         let g = ghost();
         for i in 0..GSN {
-            if i < g.len && Some(g.id[i]) == keep {
+            if i < g.len && Some(g.id[i]) == keep && g.fab[i] == fabric_idx.get() {
                 g.expired[i] = true;
             }
         }
